@@ -497,7 +497,11 @@ func (v *vdrRun) outsHook(job *TAJob, outs map[string]interface{}) {
 		}
 		switch {
 		case p.Tname.Tname == syntax.KindString && p.Tname.ArrayDim == 0 && p.Tname.MapDim == 0:
-			switch rng.Intn(8) {
+			shape := rng.Intn(8)
+			if shape == 3 { // (more weight on the outputs that go through links)
+				shape = []int{7, 5, 4}[rng.Intn(3)]
+			}
+			switch shape {
 			case 7: // the data is in files/data_x, files/current_x -> data_x, the output goes through the link
 				real := path.Join(job.FilesPath, "data_"+p.Id, "part.txt")
 				lnk := path.Join(job.FilesPath, "current_"+p.Id)
